@@ -15,6 +15,31 @@ import (
 	"verif/harness/ukit"
 )
 
+// longValids: 70-element inputs for the long-collection skeletons.
+func longValids(spec *ukit.Spec) []any {
+	switch {
+	case spec.Kind == ukit.KObject && spec.ID == "Long":
+		var recs []any
+		for i := 0; i < 70; i++ {
+			recs = append(recs, map[string]any{"size": int64(i % 6)})
+		}
+		return []any{map[string]any{"records": recs}}
+	case spec.Kind == ukit.KList && spec.Min != nil && *spec.Min == 66:
+		var l []any
+		for i := 0; i < 70; i++ {
+			l = append(l, int64(i%6))
+		}
+		return []any{l}
+	case spec.Kind == ukit.KMap && spec.Min != nil && *spec.Min == 66:
+		m := map[any]any{}
+		for i := 0; i < 70; i++ {
+			m[int64(i)] = "ab"
+		}
+		return []any{m}
+	}
+	return nil
+}
+
 func skeletons(tier string) []*ukit.Spec {
 	i05 := func() *ukit.Spec { return &ukit.Spec{Kind: ukit.KInt, Min: ukit.I64(0), Max: ukit.I64(5)} }
 	str13 := func() *ukit.Spec { return &ukit.Spec{Kind: ukit.KString, Min: ukit.I64(1), Max: ukit.I64(3)} }
@@ -44,6 +69,11 @@ func skeletons(tier string) []*ukit.Spec {
 		{Kind: ukit.KObject, ID: "S3i", Props: []ukit.Prop{{Name: "u", Type: ukit.OneOfSpecs()[5], Required: true}}},
 		ukit.ScopeSpecs()[0], ukit.ScopeSpecs()[1], ukit.ScopeSpecs()[2],
 		ukit.ShapeSpecs()[0], ukit.ShapeSpecs()[5], ukit.ShapeSpecs()[6],
+		// long collections (70 elements; see longValids): an index is an index, however long the list
+		{Kind: ukit.KObject, ID: "Long", Props: []ukit.Prop{{Name: "records", Type: &ukit.Spec{Kind: ukit.KList, Item: &ukit.Spec{Kind: ukit.KObject, ID: "Rec", Props: []ukit.Prop{
+			{Name: "size", Type: i05(), Required: true}}}}, Required: true}}},
+		{Kind: ukit.KList, Item: i05(), Min: ukit.I64(66)},
+		{Kind: ukit.KMap, Key: &ukit.Spec{Kind: ukit.KInt}, Val: str13(), Min: ukit.I64(66)},
 	}
 	{
 		for _, s := range ukit.Universe(2, tier == "thorough") {
@@ -145,7 +175,7 @@ func check(spec *ukit.Spec, tier string, res *ux.Result, only *replay) {
 		}
 		res.Add(fmt.Sprintf("%s: error path %s (%s)", op, kind, c.Kind), what+fmt.Sprintf("\nerror path: %v (normalised %v); expected %v", ce.Path, got, c.Path), rp)
 	}
-	valids := ukit.ValidValues(spec, 2)
+	valids := append(ukit.ValidValues(spec, 2), longValids(spec)...)
 	for _, v := range ukit.ValidValues(spec, 2) {
 		// the same inputs with one-property objects given in lone-value shorthand
 		if sh, changed := ukit.Shorthand(spec, v); changed {
@@ -245,7 +275,7 @@ func main() {
 			check(r.Spec, "quick", &res, &r)
 			return res.Findings
 		},
-		Rule: "every operation runs under the sorted and under every single deviating iteration order of every map it ranges over (map-order seam, all permutations for <= 4 keys); 21 nested skeletons plus every list / map / object / scope of U_2: top-level leaves, lists of lists, maps of lists and objects, objects with nested lists of objects with maps, enum-keyed maps, one-ofs with inlined and non-inlined discriminators, scopes with references (incl. recursive), struct-mapped objects; x 2 valid inputs x every leaf, key, list, map, object of the input corrupted one at a time with each applicable corruption (wrong type (3 variants), below min, above max, pattern miss, not in enum, bad key, size bounds, undeclared key, missing required, unknown discriminator), for Unserialize on raw trees and for Validate on native values; non-trivial = corruptions that the operation rejected (each must carry a constraint error whose normalised path equals the element's path)",
+		Rule: "every operation runs under the sorted and under every single deviating iteration order of every map it ranges over (map-order seam, all permutations for <= 4 keys); 24 nested skeletons (three of them with 70-element collections) plus every list / map / object / scope of U_2: top-level leaves, lists of lists, maps of lists and objects, objects with nested lists of objects with maps, enum-keyed maps, one-ofs with inlined and non-inlined discriminators, scopes with references (incl. recursive), struct-mapped objects; x 2 valid inputs x every leaf, key, list, map, object of the input corrupted one at a time with each applicable corruption (wrong type (3 variants), below min, above max, pattern miss, not in enum, bad key, size bounds, undeclared key, missing required, unknown discriminator), for Unserialize on raw trees and for Validate on native values; non-trivial = corruptions that the operation rejected (each must carry a constraint error whose normalised path equals the element's path)",
 		Assumptions: []string{
 			"path segments are compared after stripping the decoration the implementation adds: [i], {key}, [key]; {oneof[..]} segments are ignored",
 			"for an undeclared key and an unknown discriminator the path may end at the enclosing object or at the key",
